@@ -49,6 +49,10 @@ def run(ck):
 
                 paths = _eval(ck, cls, form, fn)
                 for p in returning(paths, inst):
+                    mixed = batch_reductions(p) if form == "batched" else []
+                    ck.check(not mixed, "C01.R7", inst + ":each row's value depends on that row only", mixed[0][0] if mixed else prog.method(cls, "amplitude").site(),
+                             "%s over the axes %s, which include the batch axis: every row of a batch receives a contribution from all the other rows (the single-vector and one-row forms are unaffected)"
+                             % ((mixed[0][1], mixed[0][2]) if mixed else ("", "")))
                     if not shape_err_verdict(ck, "C01.R7", inst, paths):
                         continue
                     o = p.value
